@@ -43,7 +43,8 @@ def make_jobs(rng, names, kinds, n_per_class, objectives=("sphere", "linear", "r
                    "seed": rng.randrange(1, 10 ** 6), "cfg": cfg_variants(rng, name, max_cycles_choices, pop_scales, pop_offsets, vary_params), "mode": rng.choice(list(modes)), "trace": trace_events}
             if job["mode"] != "serial":
                 job["workers"] = rng.choice([1, 2, 3, 4])
-            if multi and kind in ("multiobj", "cont", "cont-sym") and rng.random() < 0.5:
+            # weighted multi-objective tasks: over continuous spaces half of the time, over integer-coded ones (discrete, binary, mixed, permutation) a third of the time
+            if multi and rng.random() < (0.5 if kind in ("multiobj", "cont", "cont-sym") else 0.34 if kind in trace.INT_KINDS else 0.0):
                 k = rng.choice([2, 3])
                 job["objective"] = f"multi{k}"
                 job["weights"] = [rng.choice([0.0, 0.25, 0.5, 1.0, 2.0]) for _ in range(k)]
